@@ -78,15 +78,18 @@ GrammarResolver::~GrammarResolver()
     if (fDataTypeReg)
       delete fDataTypeReg;
 
+   // delete our own XSModel first: it may refer to the grammar pool's XSModel
+   // as its parent, which goes away with the pool
+   if (fXSModel)
+       delete fXSModel;
+   // don't delete fGrammarPoolXSModel! we don't own it!
+
    /***
     *  delete the grammar pool iff it is created by this resolver
     */
    if (!fGrammarPoolFromExternalApplication)
        delete fGrammarPool;
 
-   if (fXSModel)
-       delete fXSModel;
-   // don't delete fGrammarPoolXSModel! we don't own it!
    delete fGrammarsToAddToXSModel;
 }
 
